@@ -161,6 +161,17 @@ class Ctx:
                 v = extra(call, ev)
                 if v is not _oe.NOT_MODELLED:
                     return v
+            if isinstance(call.func, _ast.Name) and call.func.id == "isinstance" and len(call.args) == 2 and not call.keywords and "isinstance" not in ev.env:
+                # isinstance(x, K) / isinstance(x, (K1, K2)) against classes of the analysed program: decided on the model object's class
+                try:
+                    ks = [ev.ev(n_) for n_ in (call.args[1].elts if isinstance(call.args[1], _ast.Tuple) else [call.args[1]])]
+                    v = ev.ev(call.args[0])
+                except _oe.Unsupported:
+                    return _oe.NOT_MODELLED
+                if ks and all(isinstance(k_, _oe.Obj) and set(k_.__dict__) == {"_cls"} for k_ in ks):
+                    vk = v.__dict__.get("_cls") if isinstance(v, _oe.Obj) and set(v.__dict__) != {"_cls"} else None
+                    return vk is not None and any(k_.__dict__["_cls"] in prog.mro(vk) for k_ in ks)
+                return _oe.NOT_MODELLED
             cls_standin = ev.env.get(call.func.id) if isinstance(call.func, _ast.Name) else None
             if depth < max_depth and isinstance(cls_standin, _oe.Obj) and set(cls_standin.__dict__) == {"_cls"}:
                 # cls(...) inside a class method: `cls` is the class stand-in the method was entered with
